@@ -74,7 +74,10 @@ func (d *Decorator) ParseFile(filename string, src interface{}, mode parser.Mode
 	// If ParseFile returns an error and also a non-nil file, the errors were just parse errors so
 	// we should continue decorating the file and return the error.
 	f, perr := parser.ParseFile(d.Fset, filename, src, mode|parser.ParseComments)
-	if perr != nil && f == nil {
+	if perr != nil && (f == nil || !f.Pos().IsValid()) {
+		// f == nil -> the source could not be read. A file without a valid position is the
+		// placeholder the parser returns when the package clause itself is broken (e.g. empty
+		// input): it is not registered in the FileSet, so there is nothing to decorate.
 		return nil, perr
 	}
 
